@@ -1425,3 +1425,199 @@ Proof. vm_compute. repeat split; reflexivity. Qed.
 
 Lemma source_sends_flushed_at_once : sends_flushed sk_send_data = true.
 Proof. vm_compute. reflexivity. Qed.
+
+(* ------------------------------------------------------------------------------------------ *)
+(** * The connection layer (transport state, frames queued in h2, reset_nowait, re-pause inside
+      the flush of resume_writing) *)
+
+(* every step of the connection is a (possibly empty) list of steps of the sender system: all the
+   theorems above hold along every history of the connection *)
+Lemma cstep_projects c o :
+  exists ops, run (core c) ops = (core (fst (cstep c o)), snd (cstep c o)).
+Proof.
+  unfold cstep. destruct (broken (core c)) eqn:Hb; [exists []; reflexivity|].
+  assert (P1 : forall s p, is_run p = false -> run s [p] = (fst (step s p), [])).
+  { intros s p Hp. cbn. destruct (peer_spec s p Hp) as [E _].
+    destruct (step s p) as [s1 x1]; cbn in *. now subst. }
+  destruct o as [o| |].
+  - destruct o as [i k|k|v|m| | |i].
+    + exists [WinStream i k]. now rewrite P1.
+    + exists [WinConn k]. now rewrite P1.
+    + exists [SetInitWin v]. now rewrite P1.
+    + exists [SetMaxFrame m]. now rewrite P1.
+    + destruct (tpaused c); [exists []; reflexivity|]. exists [Pause]. now rewrite P1.
+    + destruct (tpaused c); [|exists []; reflexivity]. exists [Resume]. now rewrite P1.
+    + exists [Run i]. cbn. destruct (step (core c) (Run i)) as [s1 out]. cbn. now rewrite app_nil_r.
+  - exists []. reflexivity.
+  - destruct (tpaused c); [|exists []; reflexivity]. destruct (hq c).
+    + exists [Resume; Pause]. change [Resume; Pause] with ([Resume] ++ [Pause]).
+      rewrite run_app, P1 by reflexivity. rewrite P1 by reflexivity. reflexivity.
+    + exists [Resume]. now rewrite P1.
+Qed.
+
+Lemma crun_projects ops : forall c,
+  exists l, run (core c) l = (core (fst (crun c ops)), snd (crun c ops)).
+Proof.
+  induction ops as [|o r IH]; intros c; cbn; [exists []; reflexivity|].
+  destruct (cstep_projects c o) as [l1 H1].
+  destruct (cstep c o) as [c1 x1]; cbn [fst snd] in *.
+  destruct (IH c1) as [l2 H2]. destruct (crun c1 r) as [c2 x2]; cbn [fst snd] in *.
+  exists (l1 ++ l2). now rewrite run_app, H1, H2.
+Qed.
+
+Definition creachable (cfg : list (Z * Z)) (cw iw mf : Z) (c : conn) : Prop :=
+  wf_cfg cfg mf /\ exists ops, c = fst (crun (cinit cfg cw iw mf) ops).
+
+Lemma creachable_core cfg cw iw mf c :
+  creachable cfg cw iw mf c -> reachable cfg cw iw mf (core c).
+Proof.
+  intros [W [ops ->]]. split; auto.
+  destruct (crun_projects ops (cinit cfg cw iw mf)) as [l H]. exists l. cbn in H. now rewrite H.
+Qed.
+
+(* write_ready is set exactly when the transport is not paused; frames stay queued in h2 only while
+   it is paused *)
+Definition WT (c : conn) : Prop :=
+  wready (core c) = negb (tpaused c) /\ (hq c = true -> tpaused c = true).
+
+Lemma wready_frame_op s o : is_frame_op o = true -> wready (fst (step s o)) = wready s.
+Proof.
+  intros Ho. unfold step. destruct (broken s); auto.
+  destruct o as [i k|k|v|m| | |i]; try discriminate; cbn [fst].
+  - unfold do_win_stream. destruct (nth_error _ _); auto. destruct (_ || _ || _); auto.
+  - unfold do_win_conn. destruct (_ || _ || _); auto.
+  - unfold do_init_win. destruct (_ || _ || _); auto.
+  - unfold do_max_frame. destruct (_ || _); auto.
+Qed.
+
+Lemma wready_run s i : wready (fst (step s (Run i))) = wready s.
+Proof.
+  unfold step. destruct (broken s); auto. unfold do_run.
+  destruct (nth_error _ _) as [x|]; auto. destruct (s_pc x); auto; cbn.
+  - destruct (wready s) eqn:W; cbn; auto.
+  - destruct (_ <=? 0); cbn; auto. destruct (_ || _); cbn; auto.
+Qed.
+
+Lemma WT_cstep c o : WT c -> WT (fst (cstep c o)).
+Proof.
+  intros H. unfold cstep. destruct (broken (core c)) eqn:Hb; [exact H|].
+  assert (Hp : forall s, broken s = false -> wready (fst (step s Pause)) = false)
+    by (intros s Hs; unfold step; rewrite Hs; reflexivity).
+  assert (Hr : forall s, broken s = false -> wready (fst (step s Resume)) = true).
+  { intros s Hs; unfold step; rewrite Hs; cbn. unfold do_resume. destruct (wready s) eqn:W; auto. }
+  assert (Hrb : forall s, broken s = false -> broken (fst (step s Resume)) = false).
+  { intros s Hs; unfold step; rewrite Hs; cbn. unfold do_resume. destruct (wready s) eqn:W; auto. }
+  destruct o as [o| |].
+  - destruct o as [i k|k|v|m| | |i]; cbn [fst];
+      try (destruct H as [H1 H2]; split; cbn [core tpaused hq];
+           [rewrite wready_frame_op by reflexivity; auto|discriminate]).
+    + destruct (tpaused c) eqn:T; [exact H|]. split; cbn; [apply Hp; auto|auto].
+    + destruct (tpaused c) eqn:T; [|exact H]. split; cbn; [apply Hr; auto|discriminate].
+    + destruct H as [H1 H2]. pose proof (wready_run (core c) i) as W.
+      destruct (step (core c) (Run i)) as [s1 out].
+      cbn in *. split; cbn; [congruence|]. destruct out; auto; discriminate.
+  - destruct H as [H1 H2]. cbn. split; auto. rewrite H1. now rewrite negb_involutive.
+  - destruct (tpaused c) eqn:T; [|exact H]. destruct (hq c); cbn.
+    + split; auto. apply Hp. apply Hrb; auto.
+    + split; [apply Hr; auto|discriminate].
+Qed.
+
+Lemma WT_crun ops : forall c, WT c -> WT (fst (crun c ops)).
+Proof.
+  induction ops as [|o r IH]; intros c H; cbn; auto.
+  pose proof (WT_cstep c o H) as H1. destruct (cstep c o) as [c1 x1]; cbn in H1.
+  specialize (IH c1 H1). destruct (crun c1 r); auto.
+Qed.
+
+Lemma write_ready_tracks_transport cfg cw iw mf c :
+  creachable cfg cw iw mf c ->
+  wready (core c) = negb (tpaused c) /\ (hq c = true -> tpaused c = true).
+Proof. intros [W [ops ->]]. apply WT_crun. split; [reflexivity|discriminate]. Qed.
+
+(* back-pressure on the connection: while the TRANSPORT is paused a sender emits at most the one
+   chunk it had already been woken for -- also after reset_nowait + a resume that re-paused *)
+Lemma paused_transport_suspends cfg cw iw mf c i s1 out1 s2 out2 :
+  creachable cfg cw iw mf c -> tpaused c = true ->
+  step (core c) (Run i) = (s1, out1) -> step s1 (Run i) = (s2, out2) -> out1 = [] \/ out2 = [].
+Proof.
+  intros R T. pose proof (write_ready_tracks_transport _ _ _ _ _ R) as [W _].
+  rewrite T in W. eapply one_chunk_while_paused_r; eauto using creachable_core.
+Qed.
+
+(* a sender starved of credit on a paused transport that is then granted credit: it is woken, runs
+   to the loop top, finds write_ready clear and suspends without writing anything *)
+Lemma starved_sender_on_paused_transport cfg cw iw mf c i x s1 out1 :
+  creachable cfg cw iw mf c -> tpaused c = true -> broken (core c) = false ->
+  nth_error (senders (core c)) i = Some x -> s_pc x = Top ->
+  step (core c) (Run i) = (s1, out1) ->
+  out1 = [] /\ nth_error (senders s1) i = Some (with_pc x WaitWrite).
+Proof.
+  intros R T Hb Ex Hp Es. pose proof (write_ready_tracks_transport _ _ _ _ _ R) as [W _].
+  rewrite T in W. cbn in W.
+  pose proof (reachable_Inv _ _ _ _ _ (creachable_core _ _ _ _ _ R)) as HI.
+  destruct (run_spec _ i x s1 out1 HI Hb Ex Es) as (_ & _ & _ & _ & H).
+  destruct H as [H|[H|[H|[H|H]]]].
+  - destruct H as (_ & Hw & _). congruence.
+  - destruct H as (_ & _ & -> & _ & ->). split; auto. eapply nth_error_upd_eq; eauto.
+  - destruct H as (Hc & _). congruence.
+  - destruct H as (Hc & _). congruence.
+  - destruct H as (Hr & _). rewrite Hp in Hr. discriminate.
+Qed.
+
+(* the FIFO run on the connection (what the correspondence executes) is a history of the connection *)
+Lemma wready_sched_mono ops : forall s,
+  forallb sched_op ops = true -> wready s = false -> wready (fst (run s ops)) = false.
+Proof.
+  induction ops as [|o r IH]; intros s Hs Hw; cbn in *; auto.
+  apply andb_prop in Hs as [Ho Hs].
+  assert (H1 : wready (fst (step s o)) = false).
+  { destruct o; try discriminate.
+    - unfold step. destruct (broken s); auto.
+    - now rewrite wready_run. }
+  destruct (step s o) as [s1 x1]; cbn in *. specialize (IH s1 Hs H1).
+  destruct (run s1 r); auto.
+Qed.
+
+Lemma crun_sched ops : forall c,
+  WT c -> forallb sched_op ops = true ->
+  core (fst (crun c (map Op ops))) = fst (run (core c) ops) /\
+  snd (crun c (map Op ops)) = snd (run (core c) ops) /\
+  hq (fst (crun c (map Op ops))) = match snd (run (core c) ops) with [] => hq c | _ => false end.
+Proof.
+  induction ops as [|o r IH]; intros c HW Hs; cbn [map crun run]; [cbn; auto|].
+  cbn in Hs. apply andb_prop in Hs as [Ho Hs].
+  pose proof (WT_cstep c (Op o) HW) as HW1.
+  assert (E : core (fst (cstep c (Op o))) = fst (step (core c) o) /\
+              snd (cstep c (Op o)) = snd (step (core c) o) /\
+              hq (fst (cstep c (Op o))) = match snd (step (core c) o) with [] => hq c | _ => false end).
+  { unfold cstep. destruct (broken (core c)) eqn:Hb.
+    { unfold step; rewrite Hb; cbn; auto. }
+    destruct o; try discriminate.
+    - destruct HW as [H1 H2]. destruct (tpaused c) eqn:T; cbn.
+      + unfold step. rewrite Hb. cbn. repeat split; auto.
+        destruct (core c); cbn in *. subst. reflexivity.
+      + unfold step. rewrite Hb. cbn. auto.
+    - destruct (step (core c) (Run i)) as [s1 out]; cbn. auto. }
+  destruct E as (E1 & E2 & E3).
+  destruct (cstep c (Op o)) as [c1 x1]; cbn [fst snd] in *.
+  destruct (IH c1 HW1 Hs) as (I1 & I2 & I3).
+  destruct (crun c1 (map Op r)) as [c2 x2]; cbn [fst snd] in *.
+  destruct (step (core c) o) as [s1 y1]; cbn [fst snd] in *. subst.
+  destruct (run (core c1) r) as [s2 y2]; cbn [fst snd] in *.
+  repeat split; auto. rewrite I3, E3. destruct y1, y2; auto.
+Qed.
+
+Lemma cfifo_is_history budget c :
+  WT c -> exists ops, crun c ops = cfifo budget c.
+Proof.
+  intros HW. destruct (fifo_is_schedule budget (core c)) as [ops [Hs Hr]].
+  exists (map Op ops). destruct (crun_sched ops c HW Hs) as (A & B & C).
+  pose proof (WT_crun (map Op ops) c HW) as [W1 _].
+  unfold cfifo. rewrite <- Hr. destruct (run (core c) ops) as [s1 out] eqn:Er. cbn [fst snd] in *.
+  destruct (crun c (map Op ops)) as [c2 x2]; cbn [fst snd] in *. subst x2.
+  f_equal. destruct c2 as [k t h]; cbn in *. subst k h. f_equal.
+  destruct HW as [H1 _]. rewrite H1. destruct (tpaused c) eqn:T; cbn.
+  - cbn in H1. pose proof (wready_sched_mono ops (core c) Hs H1) as M. rewrite Er in M; cbn in M.
+    rewrite M in W1. destruct t; auto; discriminate.
+  - destruct t, (wready s1); cbn in *; auto; discriminate.
+Qed.
